@@ -24,6 +24,7 @@ def run(prog, chk):
     C.swap_handover(prog, chk, "C03.c4", ["List", "PoolList", "Array"])
     C.iterator_param_alias(prog, chk, "C03.d", SEQ)
     index_guard(prog, chk, "C03.e")
+    C.wrappers(prog, chk, "C03.w", ("List", "PoolList"))
 
 
 def index_guard(prog, chk, rid):
